@@ -1524,13 +1524,20 @@ def normalized_program(prog, desugar=True):
     stats['inlined_calls'] = inl.count
     # new helpers whose every call site was inlined are dead: drop them, so
     # that sweeps over all methods do not see the extracted copy
-    referenced = set()
-    for m in p2.modules.values():
-        for x in ast.walk(m.tree):
-            if isinstance(x, ast.Attribute):
-                referenced.add(x.attr)
-            elif isinstance(x, ast.Name):
-                referenced.add(x.id)
+    # A new method that nothing in the package referred to BEFORE the
+    # inlining either is not a helper of this package (an override called by
+    # radical.utils, e.g. `_verify`): it is kept.
+    def names_of(program):
+        out = set()
+        for m in program.modules.values():
+            for x in ast.walk(m.tree):
+                if isinstance(x, ast.Attribute):
+                    out.add(x.attr)
+                elif isinstance(x, ast.Name):
+                    out.add(x.id)
+        return out
+    referenced = names_of(p2)
+    referenced_before = names_of(prog)
     for m in p2.modules.values():
         def prune(body, owner):
             keep = []
@@ -1539,6 +1546,7 @@ def normalized_program(prog, desugar=True):
                     q = ('%s.%s' % (owner, s.name)) if owner else s.name
                     if m.rel in known and q not in known[m.rel] and \
                             s.name not in referenced and \
+                            s.name in referenced_before and \
                             not s.name.startswith('__'):
                         stats['dropped_helpers'] = stats.get(
                             'dropped_helpers', 0) + 1
